@@ -330,8 +330,8 @@ func narrows(from, to *types.Basic) bool {
 func (e *Engine) execTypeAssert(fc *fnCtx, b *ssa.BasicBlock, st *State, x *ssa.TypeAssert) {
 	xv := e.val(fc, x.X)
 	if types.IsInterface(x.AssertedType) {
-		okc := e.sc.declareConst("taok", "Bool")
-		e.assume(st, implies(okc, "(not (= "+xv.T+" 0))"))
+		// succeeds iff the value is not nil and its dynamic type implements the interface
+		okc := e.sc.define("taok", "Bool", e.implementsTerm(xv.T, x.AssertedType))
 		if x.CommaOk {
 			fc.regs[x] = Val{S: "Tuple", Tuple: []Val{{T: ite(okc, xv.T, "0"), S: "Int", GoT: x.AssertedType}, {T: okc, S: "Bool"}}, GoT: x.Type()}
 		} else {
@@ -423,4 +423,11 @@ func (e *Engine) loadFacts(st *State, v Val, t types.Type) {
 	case *types.Basic:
 		e.rangeFacts(st.Reach, v, t)
 	}
+}
+
+// implementsTerm: "x is a non-nil interface value whose dynamic type implements the interface type it".
+func (e *Engine) implementsTerm(x string, it types.Type) string {
+	fn := "implements_" + sanitize(types.TypeString(it, nil))
+	e.sc.declareFun(fn, []string{"Int"}, "Bool")
+	return "(and (not (= " + x + " 0)) (" + fn + " (dyntype " + x + ")))"
 }
